@@ -1,0 +1,16 @@
+//go:build verif
+
+// Contracts for gvc (/verif). Comment-only: this file adds no declarations.
+
+package edit
+
+// C38/C17: the completer for getopt-style commands hands getopt.Complete a
+// non-empty argument list (its precondition) and never panics on its own.
+//@ func completeGetopt
+//@   props C38 C17
+
+// The option-spec parser only ever appends freshly allocated specs.
+//@ func parseGetoptOptSpecs
+//@   trusted
+//@   results specs err
+//@   ensures forall k int :: 0 <= k && k < len(specs.opts) ==> specs.opts[k] != nil
